@@ -2,6 +2,7 @@
 //! properties: C19
 //! note: FilesystemStore (lightning-persister fs_store/common.rs): writes and removals of one key take effect in the order they were issued -- under the key's lock an operation whose version is not newer than the last one applied is skipped without touching the file, otherwise it runs and, only if it succeeded, becomes the last one applied; the recorded version never goes back
 //! trusted: R15 (deep slice): execute_locked_write: the block executed under the per-key write lock, verbatim as a function of the guarded counter (the RwLock write guard is taken as `&mut u64`), the version and the callback; clean_locks and the file operations in the callbacks (rename of the temporary file, fsync, remove_file) are dropped and not claimed; R7: `callback().map(|_| { S })` is written as a match on the callback's result (std semantics of Result::map; Verus has no `_` closure parameters)
+//! trusted: R15 (deep slice): write_version: the body of the closure that fills the temporary file, verbatim as a function of the file (a stub recording the operations applied to it; `&self` methods of std::fs::File written `&mut self`), the buffer and the optional mtime; creating the file, the rename under the key lock and the directory fsync are std::fs calls without an object to carry state and are not sliced
 //! trusted: the callback is any `FnOnce() -> Result<(), Error>`: the function may call it only under its precondition, which the contract grants only for a version newer than the recorded one (so "the callback ran" implies "the operation was not stale")
 //! assume: versions are issued in increasing order per key by get_new_version_and_lock_ref (an atomic counter, not verified); concurrency is the lock's (the contract is for the critical section)
 //! trusted: assume_specification for core::cmp::max / core::cmp::min (std definitions): present in every unit so that a change that introduces them is verified instead of being rejected by the tool
@@ -39,6 +40,41 @@ pub struct Error {}
     if is_stale_version { Ok(()) }
 //@with
     if is_stale_version { callback() }
+//@end
+// ---- write_version: the new contents are in the temporary file and flushed before anything else happens to it ----------------
+pub struct SystemTime {}
+pub struct FileTimes { pub modified: Option<SystemTime> }
+impl FileTimes {
+    #[verifier::external_body] pub fn new() -> (r: FileTimes) ensures r.modified is None { unimplemented!() }
+    #[verifier::external_body] pub fn set_modified(self, t: SystemTime) -> (r: FileTimes) ensures r.modified == Some(t) { unimplemented!() }
+}
+pub enum FileOp { Wrote(Seq<u8>), SetTimes(FileTimes), Synced }
+pub struct TmpFile { pub ops: Ghost<Seq<FileOp>> }
+impl TmpFile {
+    #[verifier::external_body] pub fn write_all(&mut self, buf: &Vec<u8>) -> (r: Result<(), Error>) ensures r is Ok ==> final(self).ops@ == old(self).ops@.push(FileOp::Wrote(buf@)), r is Err ==> final(self).ops@ == old(self).ops@ { unimplemented!() }
+    #[verifier::external_body] pub fn set_times(&mut self, t: FileTimes) -> (r: Result<(), Error>) ensures r is Ok ==> final(self).ops@ == old(self).ops@.push(FileOp::SetTimes(t)), r is Err ==> final(self).ops@ == old(self).ops@ { unimplemented!() }
+    #[verifier::external_body] pub fn sync_all(&mut self) -> (r: Result<(), Error>) ensures r is Ok ==> final(self).ops@ == old(self).ops@.push(FileOp::Synced), r is Err ==> final(self).ops@ == old(self).ops@ { unimplemented!() }
+}
+//@extract lightning-persister/src/fs_store/common.rs :: impl FilesystemStoreInner :: fn write_version
+//@cfg target_os="windows"=false
+//@slice R15
+    Ok(mut tmp_file) => (|| -> lightning::io::Result<()> { $body:any })(),
+//@with
+    fn fill_and_flush_temporary_file(tmp_file: &mut TmpFile, buf: &Vec<u8>, mtime: Option<SystemTime>) -> Result<(), Error> { $body }
+//@rw R5
+    fs::FileTimes::new()
+//@with
+    FileTimes::new()
+//@ret r
+//@requires
+    old(tmp_file).ops@.len() == 0,
+//@ensures P C19 before-the-temporary-file-may-replace-the-key-it-holds-exactly-the-new-contents-and-has-been-flushed-to-disk-as-the-last-operation-on-it
+    r is Ok ==> final(tmp_file).ops@.len() >= 2 && final(tmp_file).ops@[0] == FileOp::Wrote(buf@) && final(tmp_file).ops@.last() == FileOp::Synced
+        && (forall|k: int| 1 <= k < final(tmp_file).ops@.len() ==> !(#[trigger] final(tmp_file).ops@[k] is Wrote)),
+//@mutant temporary_file_not_flushed_before_the_rename
+    tmp_file.sync_all()?; Ok(())
+//@with
+    Ok(())
 //@end
 }
 fn main() {}
